@@ -34,12 +34,13 @@ func c29Unbind(c *Ctx, rule string) {
 	pos := c.P.Pos(fi.Decl.Pos())
 	ctxParam := fi.Obj.Type().(*types.Signature).Params().At(0)
 	isB := func(e ast.Expr) bool { return core.FieldOf(info, e) == fB }
+	curBody := ast.Node(fi.Decl.Body) // body in which single-definition locals are resolved (Unbind or a helper)
 	var lenMinus1 func(e ast.Expr) bool
 	lenMinus1 = func(e ast.Expr) bool { // len(B)-1, possibly through a local defined once as len(B)-1
 		if v := core.VarOf(info, e); v != nil {
 			defs := 0
 			okDef := false
-			ast.Inspect(fi.Decl.Body, func(x ast.Node) bool {
+			ast.Inspect(curBody, func(x ast.Node) bool {
 				if as, ok := x.(*ast.AssignStmt); ok {
 					for i, l := range as.Lhs {
 						if core.VarOf(info, l) == v {
@@ -104,52 +105,115 @@ func c29Unbind(c *Ctx, rule string) {
 		return out
 	}
 	type removal struct {
-		node int
-		kind string
-		iv   *types.Var
+		node  int
+		kind  string
+		iv    *types.Var
+		inner bool // found in a helper: node is the call in Unbind, the helper-internal order was checked there
+		okIn  bool // helper-internal check (truncate-last: the move dominates the truncation inside the helper)
 	}
-	var moves []removal // B[i] = B[len(B)-1]
-	var cuts []removal  // B = B[:len(B)-1] / shift removal
-	for _, n := range g.Nodes {
-		as, ok := n.Ast.(*ast.AssignStmt)
-		if !ok || len(as.Lhs) != 1 || len(as.Rhs) != 1 {
-			continue
-		}
-		lhs, rhs := ast.Unparen(as.Lhs[0]), ast.Unparen(as.Rhs[0])
-		if ix, ok := lhs.(*ast.IndexExpr); ok && isB(ix.X) {
-			iv := core.VarOf(info, ix.Index)
-			if rx, ok := rhs.(*ast.IndexExpr); ok && isB(rx.X) && lenMinus1(rx.Index) && iv != nil {
-				moves = append(moves, removal{n.ID, "move-last-into-slot", iv})
-			} else {
-				moves = append(moves, removal{n.ID, "other-element-write", iv})
-			}
-			continue
-		}
-		if !isB(lhs) {
-			continue
-		}
-		switch x := rhs.(type) {
-		case *ast.SliceExpr:
-			if isB(x.X) && x.Low == nil && lenMinus1(x.High) {
-				cuts = append(cuts, removal{n.ID, "truncate-last", nil})
+	scan := func(sg *core.Graph) (moves, cuts []removal) {
+		for _, n := range sg.Nodes {
+			as, ok := n.Ast.(*ast.AssignStmt)
+			if !ok || len(as.Lhs) != 1 || len(as.Rhs) != 1 {
 				continue
 			}
-		case *ast.CallExpr:
-			if id, ok := x.Fun.(*ast.Ident); ok && id.Name == "append" && len(x.Args) == 2 && x.Ellipsis.IsValid() {
-				lo, ok1 := ast.Unparen(x.Args[0]).(*ast.SliceExpr)
-				hi, ok2 := ast.Unparen(x.Args[1]).(*ast.SliceExpr)
-				if ok1 && ok2 && isB(lo.X) && isB(hi.X) && lo.Low == nil && hi.High == nil {
-					iv := core.VarOf(info, lo.High)
-					if hb, ok := ast.Unparen(hi.Low).(*ast.BinaryExpr); ok && hb.Op == token.ADD && core.VarOf(info, hb.X) == iv && iv != nil {
-						if tv := info.Types[hb.Y]; tv.Value != nil && constant.Compare(tv.Value, token.EQL, constant.MakeInt64(1)) {
-							cuts = append(cuts, removal{n.ID, "shift-remove", iv})
-							continue
+			lhs, rhs := ast.Unparen(as.Lhs[0]), ast.Unparen(as.Rhs[0])
+			if ix, ok := lhs.(*ast.IndexExpr); ok && isB(ix.X) {
+				iv := core.VarOf(info, ix.Index)
+				if rx, ok := rhs.(*ast.IndexExpr); ok && isB(rx.X) && lenMinus1(rx.Index) && iv != nil {
+					moves = append(moves, removal{node: n.ID, kind: "move-last-into-slot", iv: iv})
+				} else {
+					moves = append(moves, removal{node: n.ID, kind: "other-element-write", iv: iv})
+				}
+				continue
+			}
+			if !isB(lhs) {
+				continue
+			}
+			switch x := rhs.(type) {
+			case *ast.SliceExpr:
+				if isB(x.X) && x.Low == nil && lenMinus1(x.High) {
+					cuts = append(cuts, removal{node: n.ID, kind: "truncate-last"})
+					continue
+				}
+			case *ast.CallExpr:
+				if id, ok := x.Fun.(*ast.Ident); ok && id.Name == "append" && len(x.Args) == 2 && x.Ellipsis.IsValid() {
+					lo, ok1 := ast.Unparen(x.Args[0]).(*ast.SliceExpr)
+					hi, ok2 := ast.Unparen(x.Args[1]).(*ast.SliceExpr)
+					if ok1 && ok2 && isB(lo.X) && isB(hi.X) && lo.Low == nil && hi.High == nil {
+						iv := core.VarOf(info, lo.High)
+						if hb, ok := ast.Unparen(hi.Low).(*ast.BinaryExpr); ok && hb.Op == token.ADD && core.VarOf(info, hb.X) == iv && iv != nil {
+							if tv := info.Types[hb.Y]; tv.Value != nil && constant.Compare(tv.Value, token.EQL, constant.MakeInt64(1)) {
+								cuts = append(cuts, removal{node: n.ID, kind: "shift-remove", iv: iv})
+								continue
+							}
 						}
 					}
 				}
 			}
+			cuts = append(cuts, removal{node: n.ID, kind: "other-list-write"})
 		}
-		cuts = append(cuts, removal{n.ID, "other-list-write", nil})
+		return
+	}
+	moves, cuts := scan(g)
+	// the removal may be extracted into a same-package helper called from Unbind with the matching index:
+	// the helper is scanned with the same idioms and its index parameter is bound to the call's argument
+	for _, n := range g.Nodes {
+		if n.Ast == nil {
+			continue
+		}
+		for _, call := range core.CallsIn(n.Ast) {
+			callee := core.Callee(info, call)
+			hfi := c.P.DeclOf(callee)
+			if hfi == nil || hfi.Decl.Body == nil || hfi.Pkg != fi.Pkg || hfi == fi {
+				continue
+			}
+			hg := c.P.GraphOf(hfi)
+			if hg == nil {
+				continue
+			}
+			sig := callee.Type().(*types.Signature)
+			if sig.Variadic() || sig.Params().Len() != len(call.Args) {
+				continue
+			}
+			argOf := func(hv *types.Var) *types.Var {
+				for i := 0; i < sig.Params().Len(); i++ {
+					if sig.Params().At(i) == hv {
+						return core.VarOf(info, call.Args[i])
+					}
+				}
+				return nil
+			}
+			curBody = hfi.Decl.Body
+			hm, hc := scan(hg)
+			curBody = fi.Decl.Body
+			if len(hc) == 0 && len(hm) == 0 {
+				continue
+			}
+			r.Saw(hfi.Name())
+			for _, m := range hm {
+				if m.kind == "other-element-write" {
+					moves = append(moves, removal{node: n.ID, kind: m.kind, inner: true})
+				}
+			}
+			for _, cut := range hc {
+				up := removal{node: n.ID, kind: cut.kind, inner: true}
+				switch cut.kind {
+				case "shift-remove":
+					up.iv = argOf(cut.iv)
+					up.okIn = up.iv != nil
+				case "truncate-last":
+					for _, m := range hm {
+						if m.kind == "move-last-into-slot" && hg.Dominated(cut.node, map[int]bool{m.node: true}) {
+							if av := argOf(m.iv); av != nil {
+								up.iv, up.okIn = av, true
+							}
+						}
+					}
+				}
+				cuts = append(cuts, up)
+			}
+		}
 	}
 	if len(cuts) == 0 {
 		r.Fail(rule, "Unbind|removal", pos, "Unbind never shortens the bindings list: an unbound sender keeps receiving every packet")
@@ -160,12 +224,25 @@ func c29Unbind(c *Ctx, rule string) {
 		p := c.P.Pos(g.PosOf(cut.node))
 		switch cut.kind {
 		case "shift-remove":
+			if cut.inner && !cut.okIn {
+				r.Undecided(rule, key, p, "the removal helper is not called with a local index variable")
+				continue
+			}
 			me := matchEdges(cut.iv)
 			r.Check(len(me) > 0 && g.DominatedByEdges(cut.node, me), rule, key, p, "removes the element whose id equals the context's id",
 				"the element removed is not the one whose id was compared with the context's ID()")
 		case "truncate-last":
 			okMove := false
+			if cut.inner && cut.okIn {
+				// swap-remove inside a helper: the move dominates the truncation there; the call must be made
+				// with the index for which the id comparison held
+				me := matchEdges(cut.iv)
+				okMove = len(me) > 0 && g.DominatedByEdges(cut.node, me)
+			}
 			for _, m := range moves {
+				if cut.inner {
+					break
+				}
 				if m.kind != "move-last-into-slot" || !g.Dominated(cut.node, map[int]bool{m.node: true}) {
 					continue
 				}
